@@ -224,7 +224,9 @@ def _descent_direction(X, y, w_epoch, Xw_epoch, fit_intercept, grad_ws, datafit,
         if fit_intercept:
             past_grads_intercept = grad_intercept + raw_hess @ X_delta_w_ws
             old_intercept = w_ws[-1]
-            w_ws[-1] -= past_grads_intercept / lipchitz_intercept
+            # the Hessian underflows to 0 when the model saturates (separable data)
+            if lipchitz_intercept != 0.:
+                w_ws[-1] -= past_grads_intercept / lipchitz_intercept
 
             if w_ws[-1] != old_intercept:
                 X_delta_w_ws += w_ws[-1] - old_intercept
